@@ -408,3 +408,76 @@ func harnessC10InfoOffline(kind int) {
 
 func Harness_C10_info_offline_grp() { harnessC10InfoOffline(verifKindGrp) }
 func Harness_C10_info_offline_p2p() { harnessC10InfoOffline(verifKindP2P) }
+
+// ---- notifications routed to the subscribers' 'me' topics (for their sessions not attached here): the real
+// presSubsOffline and infoSubsOffline over arbitrary modes, with removed participants (p2p keeps their records):
+// nothing is routed to a removed user or to anybody who is not a subscriber, every recipient passes the source
+// filter, and receipts/typing go only to readers with presence permission.
+func harnessC10OfflineRecipients(kind int) {
+	fx := verifNewTopic(kind, 2)
+	t := fx.topic
+	removed := map[types.Uid]bool{}
+	for _, u := range fx.uids {
+		pud := t.perUser[u]
+		pud.modeWant, pud.modeGiven = verifMode("want"), verifMode("given")
+		if kind == verifKindP2P && verifNondetBool("removed") {
+			pud.deleted = true
+			removed[u] = true
+		}
+		t.perUser[u] = pud
+	}
+	member := func(name string) (types.Uid, bool) {
+		for _, u := range fx.uids {
+			if u.UserId() == name {
+				return u, true
+			}
+		}
+		return 0, false
+	}
+	if verifNondetBool("receipt") {
+		what := []string{"read", "recv", "kp"}[verifChoose("infoWhat", 3)]
+		t.infoSubsOffline(fx.uids[0], what, 5, "sid-x")
+		for _, m := range verifDrainHub(fx.hub) {
+			u, ok := member(m.RcptTo)
+			verifAssert(ok && m.Info != nil, "receipt-routed-to-subscribers-only")
+			if !ok {
+				continue
+			}
+			pud := t.perUser[u]
+			mode := pud.modeWant & pud.modeGiven
+			verifAssert(!removed[u], "receipt-never-to-removed-users")
+			verifAssert(mode.IsPresencer() && mode.IsReader(), "receipt-only-to-readers-with-presence-permission")
+			verifAssert(m.Info.Src == t.original(u) && m.Info.SkipTopic == t.name, "receipt-names-the-recipients-view-of-the-topic")
+		}
+		verifReach("end")
+		return
+	}
+	what := []string{"on", "off", "upd", "msg", "del", "acs", "gone", "tags"}[verifChoose("what", 8)]
+	src := &presFilters{filterIn: types.AccessMode(verifNondetU8("filterIn")), filterOut: types.AccessMode(verifNondetU8("filterOut"))}
+	t.presSubsOffline(what, &presParams{seqID: 7, actor: fx.uids[0].UserId()}, src, nilPresFilters, "sid-x", verifNondetBool("offlineOnly"))
+	seen := map[types.Uid]int{}
+	for _, m := range verifDrainHub(fx.hub) {
+		u, ok := member(m.RcptTo)
+		verifAssert(ok && m.Pres != nil, "notification-routed-to-subscribers-only")
+		if !ok {
+			continue
+		}
+		seen[u]++
+		pud := t.perUser[u]
+		mode := pud.modeWant & pud.modeGiven
+		verifAssert(!removed[u], "notification-never-to-removed-users")
+		verifAssert(seen[u] == 1, "notification-routed-once-per-user")
+		// access changes and removal notices go to everybody concerned; a description update to every joiner;
+		// everything else needs presence permission and must pass the source filter
+		if what != "acs" && what != "gone" && !(what == "upd" && mode.IsJoiner()) {
+			verifAssert(mode.IsPresencer(), "notification-only-with-P-permission")
+			verifAssert(src.filterIn == 0 || mode&src.filterIn != 0, "filter-in-respected")
+			verifAssert(src.filterOut == 0 || mode&src.filterOut == 0, "filter-out-respected")
+		}
+		verifAssert(m.Pres.Src == t.original(u) && m.Pres.Topic == "me", "notification-names-the-recipients-view-of-the-topic")
+	}
+	verifReach("end")
+}
+
+func Harness_C10_offline_recipients_grp() { harnessC10OfflineRecipients(verifKindGrp) }
+func Harness_C10_offline_recipients_p2p() { harnessC10OfflineRecipients(verifKindP2P) }
